@@ -6,14 +6,14 @@ VERIF = os.path.dirname(os.path.dirname(os.path.abspath(__file__)))
 CLAIMS = {
  "C01": ("other", "MIR dataflow: normalizer routing, sibling agreement, representation-only arms, window bounds; finite-domain evaluation of the ASCII normalizers (256 bytes x config) and of every two-byte case-insensitive search",
          "Decides structural necessary conditions of the fuzzy accept/reject relation: every haystack/needle comparison goes through the one normalizer, the two normalizer siblings agree (as complete functions of byte x config for AsciiChar), no arm decides by representation alone, ASCII prefilter searches exactly the pre-images under AsciiChar::normalize, candidate windows are h-n+1. Does not decide the iff itself.", "§3 C01"),
- "C02": ("other", "MIR method-set + path rules on the indices vector, twin comparison of _match/_indices bodies",
-         "Decides: indices vector is append-only, nothing appended on a path that returns None, INDICES-guarded code cannot affect the score, _match/_indices twins agree. Does not decide index validity for all inputs.", "§3 C02"),
- "C03": ("other", "const evaluation vs fzf scheme, exhaustive abstract evaluation of bonus_for over 7x7 classes, loop-carried-state rule, overflow obligations",
-         "Decides: scoring constants and both bonus configurations equal the documented fzf values; bonus_for table; previous-class carried on every iteration; u16 score additions saturating or bounded. Does not decide score/alignment coherence for all inputs.", "§3 C03"),
+ "C02": ("other", "MIR method-set + path rules on the indices vector, twin comparison of _match/_indices bodies, decision tables of the DP cell updates (back-pointer strictness), normalizer routing of the index re-walk",
+         "Decides: indices vector is append-only, nothing appended on a path that returns None, INDICES-guarded code cannot affect the score, _match/_indices twins agree, back-pointers are set exactly when the match branch wins strictly, the index re-walk compares normalized characters. Does not decide index validity for all inputs.", "§3 C02"),
+ "C03": ("other", "const evaluation vs fzf scheme, exhaustive abstract evaluation of bonus_for over 7x7 classes, loop-carried-state rule, overflow obligations (interval domain), decision tables of the DP cell updates",
+         "Decides: scoring constants and both bonus configurations equal the documented fzf values; bonus_for table and its arguments; previous-class carried on every iteration; u16 score additions saturating or bounded; gap steps; the cell-update recurrence. Does not decide score/alignment coherence for all inputs.", "§3 C03"),
  "C04": ("other", "source-set + const relation on early exits, prefix-bonus additivity",
          "Decides: every 'cannot get better' early exit compares against a value that dominates every bonus_for result in every constructible Config; prefix preference is additive, non-negative and bounded. Optimality itself is not decided.", "§3 C04"),
- "C05": ("other", "affine forms of candidate windows, prefilter-arm agreement, trimming guards",
-         "Decides: candidate windows are h-n+p, prefilter arms agree on (prefix searched, prefilter length, window), trimming guards identical in twins and as documented. The relations themselves are not decided.", "§3 C05"),
+ "C05": ("other", "affine forms of candidate windows, prefilter-arm agreement, per-path polynomial windows of exact/prefix/postfix with whitespace trimming, normalizer routing of every comparison in the exact/substring scanners",
+         "Decides: candidate windows are h-n+p, prefilter arms agree on (prefix searched, prefilter length, window), trimming and bounds of exact/prefix/postfix on every decision path, every comparison with the needle is normalized, best-bonus arguments. The relations themselves are not decided.", "§3 C05"),
  "C06": ("other", "who-may-call + source sets for unchecked reads, ordered-list typestate, comparator as a decision function over the orderings of its documented keys, guard dominance",
          "Decides the clauses on which memory safety of reading a snapshot rests: unchecked item reads are fed only by indices that passed a checked lookup, in-flight list producers preserve order, placeholder accounting, the comparator equals the documented order on all consistent key orderings, snapshot-update guard. Not the set equality under all interleavings.", "§3 C06"),
  "C08": ("other", "atomic op inventory, dominance of initialisation over publication, read gating, CAS shape",
@@ -22,8 +22,8 @@ CLAIMS = {
          "Decides that every happens-before edge the design relies on is declared with a sufficient ordering, and that the per-thread matcher scratch is confined to the pool. Not race freedom over all executions.", "§3 C09"),
  "C10": ("other", "sibling affine extents of layout vs raw views, guard dominance, overflow obligations, truncating-cast inventory",
          "Decides: slab view extents equal layout extents; the four slab guards dominate the unsafe carve-up; u16 score arithmetic obligations; truncating casts behind their guards. Not totality/history independence in general.", "§3 C10"),
- "C11": ("other", "loop-exit rule on Drop, who-may-call dealloc, control dependence of drops on active, unwind-graph order of callback vs move",
-         "Decides: Drop visits every bucket; who may free; drops gated on the active flag; value moved into the slot only after the fallible callback; no leak primitives. Not exactly-once over all histories.", "§3 C11"),
+ "C11": ("other", "loop-exit / iterator-pipeline rule on Drop and Bucket::dealloc, who-may-call dealloc, control dependence of drops on active, unwind-graph order of callback vs move",
+         "Decides: Drop visits every bucket and dealloc every entry (for-loop or adaptor-chain form); who may free; drops gated on the active flag; value moved into the slot only after the fallible callback; no leak primitives. Not exactly-once over all histories.", "§3 C11"),
  "C12": ("other", "post-dominance in restart, guard set of Snapshot::update, derived per-stream field reset completeness",
          "Decides: restart installs a fresh vector + Cleared + cancel; stale-run guard dominates Snapshot::update; worker stream switch dominates the spawn; run(cleared) resets every per-stream field; clear/update write every snapshot field.", "§3 C12"),
  "C13": ("other", "post-dominance of notify, must-pass-through flag check on run exits, typestate dataflow of the worker-mutex guard (through Option wrapping and helpers) for arming stores",
@@ -38,10 +38,10 @@ CLAIMS = {
          "Narrow claim: every constructor decides by has_ascii_graphemes and fills by chars::graphemes; CR LF special case; accessors agree on both variants. Grapheme segmentation itself is library behaviour.", "§3 C17"),
  "C18": ("translation_validation", "per-function token equality with vendored rayon 1.10.0 quicksort.rs modulo an enumerated cancellation delta; MIR taint of the cancel result",
          "par_sort.rs is shown to be the vetted reference algorithm function by function, plus a separately checked cancellation delta (result tainted only by the flag; cancel points only between partition steps in safe code; comparator chain is the documented total order).", "§3 C18"),
- "C19": ("other", "control dependence + same-value rules in the tick call tree",
-         "Decides: every snapshot mutation in tick is guarded by the value returned as changed; running is the value that guards the spawn; failed-lock exit returns running:true; status lattice shape. Not the item accounting under concurrency.", "§3 C19"),
- "C20": ("other", "holder inventory, exhaustive state table, who-writes on state transitions",
-         "Decides the accounting argument of the subtraction: four Arc holders, three subtracted terms, matcher_item_refs table = 1 + [worker points at current stream], transitions that justify it.", "§3 C20"),
+ "C19": ("other", "control dependence + same-value rules in the tick call tree, tick as a boolean function of its phases per decision path, Snapshot::update guard/order discipline",
+         "Decides: every snapshot mutation in tick is guarded by the value returned as changed; changed ⊇ OR of the phases, running ⊇ the last phase's on every return path; running is the value that guards the spawn; failed-lock exit returns running:true; update guards and was_canceled discipline; status lattice shape. Not the item accounting under concurrency.", "§3 C19"),
+ "C20": ("other", "holder inventory (fields and by-value closure captures), enum decision table of matcher_item_refs, per-path polynomial of active_injectors, who-writes on state transitions, restart installs a fresh stream",
+         "Decides the accounting argument of the subtraction: the Arc holders, three subtracted terms on every path, matcher_item_refs table = 1 + [worker points at current stream], transitions that justify it.", "§3 C20"),
 }
 
 NOT_APPLICABLE = {
